@@ -147,7 +147,7 @@ Qed.
 Print Assumptions C02_own_api_refuted_matryer.
 
 (* ------------------------------------------------------------------------------------ *)
-(* Non-vacuity: a chain of depth 3 behind an alias, a diamond through io.ReadCloser and     *)
+(* Non-vacuity: a chain of depth 5 through an alias, a diamond through io.ReadCloser and     *)
 (* io.WriteCloser, an instantiated generic, a variadic []byte element                      *)
 (* ------------------------------------------------------------------------------------ *)
 Definition src : str := B "example.com/m/src".
@@ -169,18 +169,22 @@ Definition E0 : denv :=
                         [TAlias (Some src) (B "RC") []; N io (B "WriteCloser")]);
     (src, B "Top", ifc [B "K"] [(B "low", sg0 [])] [N src (B "Mid"); TNamed (Some src) (B "Gen") [(nolabel, TMap (TParam (B "K")) (TBasic (B "int")))]]) ].
 
+Definition ms0 : list meth := Eval vm_compute in match method_set E0 5 src (B "Top") with Ok ms => ms | Err _ => [] end.
+Definition id0 : idata :=
+  match f_ifaces (gen_file cx0 src true [mock_iface (B "Top") (B "MockTop") [(named_label (B "K"), TNamed None (B "comparable") [])] ms0]) with
+  | id :: _ => id | [] => id_of [] end.
+
 Example C02_example :
   wf_env E0 = true /\
-  (exists ms, method_set E0 4 src (B "Top") = Ok ms /\
-     map m_name ms = [B "Close"; B "Produce"; B "Put"; B "Read"; B "Write"; B "low"] /\
-     (* the mock (testify and matryer alike) declares these six methods, Put with "..." on its only parameter *)
-     (let id := match f_ifaces (gen_file cx0 src true [mock_iface (B "Top") (B "MockTop") [(named_label (B "K"), TNamed None (B "comparable") [])] ms]) with
-                | id :: _ => id | [] => id_of [] end in
-      map mm_name (iface_methods Matryer id) = map m_name ms /\
-      map (fun x => map a_ell (mm_params x)) (iface_methods Testify id) = [[]; []; [true]; [false]; [false]; []] /\
-      api_free Matryer true (map m_name ms) = true) /\
-     (* Top[string] has the same methods with K := string *)
-     method_set_of E0 4 src (TNamed (Some src) (B "Top") [(nolabel, TBasic (B "string"))])
-       = Ok (map (subst_meth [(B "K", TBasic (B "string"))]) ms)) /\
-  method_set E0 3 src (B "Top") = Err EOutOfFuel.
-Proof. vm_compute. split; [reflexivity|]. split; [|reflexivity]. eexists. repeat split. Qed.
+  method_set E0 5 src (B "Top") = Ok ms0 /\
+  map m_name ms0 = [B "Close"; B "Produce"; B "Put"; B "Read"; B "Write"; B "low"] /\
+  (* the mock (testify and matryer alike) declares these six methods, Put with "..." on its only parameter *)
+  map mm_name (iface_methods Matryer id0) = map m_name ms0 /\
+  map (fun x => map a_ell (mm_params x)) (iface_methods Testify id0) = [[]; []; [true]; [false]; [false]; []] /\
+  api_free Matryer true (map m_name ms0) = true /\
+  (* Top[string] has the same methods with K := string *)
+  method_set_of E0 5 src (TNamed (Some src) (B "Top") [(nolabel, TBasic (B "string"))])
+    = Ok (map (subst_meth [(B "K", TBasic (B "string"))]) ms0) /\
+  (* embedding depth 5: Top -> Mid -> RC (alias) -> io.ReadCloser -> io.Reader *)
+  method_set E0 5 src (B "Top") <> Err EOutOfFuel /\ method_set E0 4 src (B "Top") = Err EOutOfFuel.
+Proof. repeat split; try (vm_compute; reflexivity). vm_compute. discriminate. Qed.
